@@ -500,8 +500,42 @@ def mp3(ctx, R):
                     {("no scaling" if a else "scaling", "scaler data" if b else "plain"): sorted(v) for (a, b), v in table.items()}))
 
 
+_USES_FILE = {}
+
+
+def _reader_method_uses_file(ctx, name):
+    """does this TdmsReader method (or what it calls in the reader) use the file handle other than by testing it against None?
+    Unknown methods count as using it."""
+    prog = ctx.prog
+    key = (id(prog), name)
+    if key in _USES_FILE:
+        return _USES_FILE[key]
+    rd = prog.cls("reader.TdmsReader")
+    found = prog.lookup(rd, name)
+    if not (found and found[0] == "method"):
+        _USES_FILE[key] = True
+        return True
+    cg = ctx.callgraph()
+    seen = cg.reachable([found[2].qual])
+    uses = False
+    for q in seen:
+        f = prog.functions.get(q)
+        if f is None or f.cls is not rd:
+            continue
+        tested = set()
+        for n in ast.walk(f.node):
+            if isinstance(n, ast.Compare) and all(isinstance(o, (ast.Is, ast.IsNot, ast.Eq, ast.NotEq)) for o in n.ops):
+                for x in [n.left] + list(n.comparators):
+                    tested.add(id(x))
+        for n in ast.walk(f.node):
+            if isinstance(n, ast.Attribute) and dotted(n) in ("self._file", "self._index_file") and isinstance(n.ctx, ast.Load) and id(n) not in tested:
+                uses = True
+    _USES_FILE[key] = uses
+    return uses
+
+
 def _reader_calls_under(ctx, fi, facts, seen, chain):
-    """Calls of reader data methods reachable in fi under `facts` (self-method calls followed)."""
+    """Calls of reader methods that use the file, reachable in fi under `facts` (self-method calls followed)."""
     prog = ctx.prog
     cfg = ctx.cfg(fi)
     r = cfg.reach([cfg.entry], assume=assume_from(facts))
@@ -509,7 +543,7 @@ def _reader_calls_under(ctx, fi, facts, seen, chain):
     for n in sorted(r, key=lambda n: n.id):
         for c in node_calls(n):
             cn = call_name(c) or ""
-            if cn.startswith("self._reader.") and cn.split(".")[-1] != "is_index_file_only":
+            if cn.startswith("self._reader.") and _reader_method_uses_file(ctx, cn.split(".")[-1]):
                 out.append((fi, c, list(chain)))
             elif cn.startswith("self.") and cn.count(".") == 1 and fi.cls is not None:
                 found = prog.lookup(fi.cls, cn[5:])
